@@ -892,6 +892,12 @@ def gen_builtins(quick, seed):
                 out.append(ps("bi:%d" % n, shadow + "\n" + call + "\nprobe(message, _, get_key(message), get_key(_))",
                               pt={"meas": "m", "tags": {"tg": "tv"}, "fields": {"fi": 7, "fs": " sv ", "message": msg, "a.b": "dotted"}},
                               tag="the _ alias with a shadowing variable"))
+    # white space is every Unicode white-space character, not only the ASCII / Latin-1 ones; a cutset trims exactly its characters
+    for pad in ["\u3000", "\u2003", "\u00a0", "\u0085", "\u1680", "\u2028", "\u202f", "\u205f", "\u200a", "\u200b", "\ufeff", "\t\u3000 \u00a0"]:
+        for call in ["trim(k)", 'trim(k, "")', 'trim(k, " ")', "trim(_)"]:
+            n += 1
+            out.append(ps("bi:%d" % n, call + "\nprobe(k, _)", pt={"meas": "m", "tags": {"tg": "tv"},
+                          "fields": {"k": pad + "mid dle" + pad + pad, "message": pad + pad + "msg" + pad, "fi": 7}}, tag="trim of Unicode white space"))
     # numeric text is read as a DECIMAL floating-point spelling, whatever it looks like (leading zeros, base prefixes, signs, blanks)
     for txt in ["010", "0000123", "-017", "0755", "0x1f", "0b101", "0o17", "089", "012.9", "1e2", " 12", "12 ", "+5", ".5", "5.", "1_000", "0X1F", "00", "-0", "1e-2", "12abc"]:
         for T in ["int", "float", "bool", "str"]:
